@@ -55,22 +55,30 @@ def main(pid):
     corpus = special + tie_texts + [f"See {t} (1999); {t}." for t in tie_texts[:200]] + docs[:(1500 if thorough else 300)] \
         + list(gendocs.random_docs(vlib.seed(), 300 if thorough else 80, hostile=True))
     corpus = [t for t in dict.fromkeys(corpus) if "\ud800" not in t and t != "eyecite"]
-    base = vlib.impl_run("drv_purity", "baseline", {"texts": corpus}, env={"PYTHONHASHSEED": "0"})
+    hs_dir = vlib.WORK / f"hs-{os.getpid()}-{time.time_ns()}"
+    hs_dir.mkdir(parents=True)
+    hsenv = {"VERIF_HS_CACHE": str(hs_dir)}
+    base = vlib.impl_run("drv_purity", "baseline", {"texts": corpus}, env={"PYTHONHASHSEED": "0", **hsenv})
     items = []
     n = len(corpus)
     reps = max(1, (n // (3 * len(hists))) + 1)
     j = 0
     for _ in range(reps):
         for h in hists:
-            items.append({"hist": h, "bind": {"A": j % n, "B": (j + 1) % n, "C": (j + 2) % n}, "opt": (j // 3) % 5})
+            # every third history has OTHER tokenizers built and used between its calls (see drv_purity.other_job)
+            items.append({"hist": h, "bind": {"A": j % n, "B": (j + 1) % n, "C": (j + 2) % n}, "opt": (j // 3) % 6,
+                          "other": (j // 3) % 3 == 1})
             j += 3
     seeds = [0, 1, 2, 3, 4, 5, 11 + vlib.seed(), 97 + vlib.seed()] + (list(range(100, 124)) if thorough else [])
     from concurrent.futures import ThreadPoolExecutor
     with ThreadPoolExecutor(min(len(seeds), vlib.NCPU)) as ex:
         futs = {s: ex.submit(vlib.impl_run, "drv_purity", "run_histories",
                              {"items": items, "common": {"texts": corpus, "full": False}},
-                             env={"PYTHONHASHSEED": str(s)}) for s in seeds}
+                             env={"PYTHONHASHSEED": str(s), **hsenv}) for s in seeds}
         results = {s: f.result() for s, f in futs.items()}
+    import shutil
+    shutil.rmtree(hs_dir, ignore_errors=True)
+    ev.cov["histories_with_other_tokenizers_between_calls"] = sum(1 for it in items if it["other"])
     recs = []
     for s in seeds:
         for hi, calls in enumerate(results[s]):
@@ -134,7 +142,7 @@ def main(pid):
         if key in seen:
             continue
         seen.add(key)
-        vd.violation(cl, {"text": corpus[rc["text"]], "option_set": ["plain", "remove_ambiguous", "plain + clean_steps", "markup mode", "markup mode, steps without html"][rc["opt"]], "seed": rc["seed"],
+        vd.violation(cl, {"text": corpus[rc["text"]], "option_set": ["plain", "remove_ambiguous", "plain + clean_steps", "markup mode", "markup mode, steps without html", "tokenizer=HyperscanTokenizer"][rc["opt"]], "seed": rc["seed"],
                           "thread": rc["th"], "history": items[rc["hist"]]["hist"] if rc["hist"] >= 0 else rc["th"],
                           "baseline_seed0": base[rc["text"]][rc["opt"]][:1500]},
                      {"clause": cl, "tie_text": corpus[rc["text"]] in tie_texts},
